@@ -19,18 +19,18 @@ CLAIMED = {
     technique=KANI + "; differential against independent RFC 4648 reference encoder/decoder written in the harness crate",
     ref="DESIGN.md §4 C18"),
  "C03": dict(
-    text="One-step induction over the name builder: from every builder state satisfying its representation invariant (any closed length 0..254, any open label 1..63, arbitrary content) each operation (push, append_slice, append_label, end_label, append_name, append_origin, append_dec_u8_label, append_hex_digit_label, finish, into_name) is decided by the solver to keep the invariant / produce a valid name, whether it returns Ok or Err, without panic or overflow. Histories of any length follow by induction.",
+    text="One-step induction over the name builder: from every builder state satisfying its representation invariant (any closed length 0..254, any open label 1..63, arbitrary content) each operation (push, append_slice, append_label, end_label, append_name, append_origin, append_dec_u8_label, append_hex_digit_label, finish, into_name) is decided by the solver to keep the invariant / produce a valid name, whether it returns Ok or Err, without panic or overflow. Histories of any length follow by induction. On the wire side, ParsedName::parse_ref accepts a four-label name (symbolic label lengths) ended by a root, a pointer to a root or a pointer to one more label exactly when the decompressed name has at most 255 octets, and reports that length; the validating constructors (Name/RelativeName::from_slice, UncertainName, Label::split_from, Chain) accept exactly what an independent validator accepts.",
     note="Pre-states are constructed through a cfg-guarded hook (NameBuilder::verif_from_parts). Appended slices/names are <= 5/4 octets (quick) or 6 (thorough); all (length, open-label) boundary pairs are reached through the symbolic pre-state. Validity of the whole name is composed from 'prefix octets untouched' + 'suffix valid' + 'total <= 254' (argument). Known finding D8 (255-octet relative names when a new label starts at len+n == 254, pinned by the repo's own test) is excluded from the main harnesses and asserted by witness harnesses. Builder target is the harness-local FixedBuf; ShortBuf paths, text parsing (from_chars) and slicing are covered by separate harnesses where listed in evidence, otherwise outside.",
     technique=KANI + "; inductive step from an arbitrary symbolic pre-state satisfying the representation invariant",
     ref="DESIGN.md §4 C03"),
  "C04": dict(
-    text="Order/equality/hash laws decided for all triples of labels up to the stated length: cmp equals the RFC 4034 6.1 order (lexicographic over lower-cased octets) of an independent model, is antisymmetric and transitive, agrees with ==, equal labels feed identical octets to the hasher, case-insensitivity is exactly A-Z/a-z, composed orders equal bytewise order of the wire forms.",
+    text="Order/equality/hash laws decided for all triples of labels up to the stated length: cmp equals the RFC 4034 6.1 order (lexicographic over lower-cased octets) of an independent model, is antisymmetric and transitive, agrees with ==, equal labels feed identical octets to the hasher, case-insensitivity is exactly A-Z/a-z, composed orders equal bytewise order of the wire forms. The same coherence (== <=> Equal, antisymmetry, equal values hash equal, canonical order = order of canonical wire forms) is decided for character strings, names in two representations, A records with symbolic owner/class/TTL, A/DS/DNSKEY/MX/TXT/RRSIG/NSEC record data, opaque (unknown-type) record data over all pairs of record types, and the Unknown variant of the AllRecordData enum.",
     note="Bounds: labels <= 3 octets (quick), <= 5 (thorough); names, records and RDATA comparisons are added harness by harness (see evidence samples for what this run covered).",
     technique=KANI + "; algebraic laws + differential against an independent canonical-order model",
     ref="DESIGN.md §4 C04"),
  "C05": dict(
     text="Per record type: for every value within the stated field sizes the solver decides that compose_rdata, rdlen, compose_len_rdata and compose_canonical_rdata agree on length and content with an independent field-by-field layout, that parsing the composed octets gives back an equal value with nothing left over (name-free types), that unknown types are carried opaquely, and that the canonical form equals the wire form with exactly the embedded names lower-cased (name-bearing types, compose side).",
-    note="Types covered so far are listed in evidence samples (A, AAAA, DS, CDS, DNSKEY, CDNSKEY, HINFO, TXT, SSHFP, TLSA, OPENPGPKEY, NULL, unknown; compose side of MX, SRV, SOA, NS, CNAME, PTR, DNAME). Octet fields are 0..3 symbolic octets; embedded names have a concrete label structure with symbolic content. The parse side of name-bearing types goes through ParsedName::parse_ref, which CBMC cannot execute even on concrete input (DESIGN section 2), so 'wire -> value -> wire' for those types, SVCB, NSEC/NSEC3/RRSIG, NAPTR, IPSECKEY, OPT are outside the claim.",
+    note="Types covered so far are listed in evidence samples (A, AAAA, DS, CDS, DNSKEY, CDNSKEY, HINFO, TXT, SSHFP, TLSA, OPENPGPKEY, NULL, unknown; compose side of MX, SRV, SOA, NS, CNAME, PTR, DNAME). Octet fields are 0..3 symbolic octets; embedded names have a concrete label structure with symbolic content. The parse side of name-bearing types ('wire -> value -> wire') is decided for MX (quick) and the CNAME shape shared by NS/PTR/DNAME (thorough) on every 8-octet message with possibly compressed names, against the independent name reader (per-loop bounds for ParsedName::parse_ref, DESIGN section 2a); every value Txt::parse returns (empty RDATA included) has total accessors. SOA/SRV/MINFO parse side, SVCB, NSEC/NSEC3/RRSIG parse side, NAPTR, IPSECKEY, OPT are outside the claim.",
     technique=KANI + "; round trip + differential against an independent wire layout written in the harness",
     ref="DESIGN.md §4 C05"),
  "C02": dict(
@@ -54,9 +54,9 @@ CLAIMED = {
     technique=KANI + "; differential against an independent RFC 4034 4.1.2 bitmap reader; split_rtype additionally by MIR->SMT-LIB2 (z3 + cvc5)",
     ref="DESIGN.md §4 C13"),
  "C01": dict(
-    text="The read-side kernels that CBMC can execute: ParsedName::skip (used by every section hop and record skip) accepts a name exactly when its uncompressed part is at most 255 octets and stops right behind it, for all four-label names up to the limit; the slice label iterator (Label::iter_slice) terminates on every 6-octet input from every start, stays fused after None, and never panics; the message view accepts exactly octet strings of at least 12 octets and every header/flag/count accessor returns the RFC 1035 bit field of the header octets.",
-    note="Typed EDNS option parsing was tried and runs out of memory (experimental tier, not registered). Everything that goes through ParsedName::parse_ref - Question/record parsing, section iteration, canonical_name, is_answer, typed RDATA with names, display - is outside the claim: CBMC's symbolic execution of parse_ref's two nested loops does not finish even on 4 octets or on fully concrete input (measurements in DESIGN section 2), so two of the three known counterexamples of this property (ANCOUNT overflow in canonical_name, non-XFR question in the XFR interpreter) are not decided here. Typed RDATA parsing for name-free types is covered under C05.",
-    technique=KANI + "; termination via unwinding assertions with a pigeonhole bound, non-termination counterexamples replayed natively from the CBMC trace",
+    text="The read-side kernels that CBMC can execute: ParsedName::skip (used by every section hop and record skip) accepts a name exactly when its uncompressed part is at most 255 octets and stops right behind it, for all four-label names up to the limit; the slice label iterator (Label::iter_slice) terminates on every 6-octet input from every start, stays fused after None, and never panics; the message view accepts exactly octet strings of at least 12 octets and every header/flag/count accessor returns the RFC 1035 bit field of the header octets; the compressed-name reader ParsedName::parse_ref agrees with an independent RFC 1035 4.1.4 reader on accept/reject, end position, decompressed length, compressed flag and every label (read back through ParsedName::iter) for every 4-octet message and every 6-octet message with a leading pointer, with each of its three loops ending inside its own bound; in the thorough tier the first question of every 18-octet one-question message equals the referenced name, QTYPE and QCLASS.",
+    note="parse_ref is decided with per-loop unwinding bounds (--unwindset, resolved against the linked GOTO binary on every run; DESIGN section 2a) under the assumption that the reference reader needs at most 2-3 labels and 1-3 pointer hops; label-bearing pointer cycles (which the reader ends through the 255-octet limit after up to 127 rounds) are outside. Typed EDNS option parsing was tried and runs out of memory (experimental tier, not registered). Record-section iteration, canonical_name, is_answer, display and the XFR interpreter need several parse_ref calls per input and are outside the claim, so two of the three known counterexamples of this property (ANCOUNT overflow in canonical_name, non-XFR question in the XFR interpreter; both repaired and demonstrated natively under findings/) are not decided here. Typed RDATA parsing is covered under C05.",
+    technique=KANI + "; termination via unwinding assertions with a pigeonhole bound, non-termination counterexamples replayed natively from the CBMC trace; per-loop bounds via CBMC --unwindset; differential against an independent RFC 1035 4.1.4 name reader",
     ref="DESIGN.md §4 C01"),
  "C09": dict(
     text="The sequential kernel of snapshot isolation, the per-item version vector: for a committed history and a writer working at the next version, every reader pinned at a committed version keeps seeing exactly its value through any two writer operations (update/remove/rollback), the writer sees its own last write, and rollback makes the open version invisible to everyone; the writer's version is strictly newer than every reader version within the RFC 1982 window, also across the 2^32 wrap.",
@@ -65,7 +65,7 @@ CLAIMED = {
     ref="DESIGN.md §4 C09"),
  "C15": dict(
     text="The demultiplexing kernel of the stream transports, the outstanding-query table: by one-step induction from every table state satisfying its representation invariant, insert never hands out an ID whose slot is occupied and stores exactly the request, try_remove returns exactly what was stored under that ID (nothing for free or out-of-range IDs) and does so once, insert_at fills a free slot, and count/curr stay consistent - so two live requests never share an ID and a reply looked up by ID reaches its own request.",
-    note="Tables of 4 slots (the operations are index arithmetic over the slot vector); state constructed through a cfg-guarded hook. Everything asynchronous - timeouts, retries, TC fallback, connection state machine, redundant/load-balancing transports - and Message::is_answer (goes through ParsedName::parse_ref) are outside the claim: Kani does not model concurrency.",
+    note="Tables of 4 slots (the operations are index arithmetic over the slot vector); state constructed through a cfg-guarded hook. Everything asynchronous - timeouts, retries, TC fallback, connection state machine, redundant/load-balancing transports - and Message::is_answer (two question parses plus a ParsedName comparison per input; not reached) are outside the claim: Kani does not model concurrency.",
     technique=KANI + "; inductive step from an arbitrary symbolic pre-state satisfying the representation invariant",
     ref="DESIGN.md §4 C15"),
 }
@@ -74,11 +74,11 @@ NA = {
  "C06": "record-level write->read needs zonefile::inplace::Zonefile, whose record dispatch (ZoneRecordData::scan, SVCB arm) makes kani-compiler 0.68 abort; the token-level kernels planned in DESIGN were not reached in this session (label Display->parse round trip is checked under C03, Base16/32/64 text under C18)",
  "C07": "the subject (zonefile::inplace::Zonefile::next_entry) cannot be compiled by kani-compiler 0.68 (ICE through ZoneRecordData::scan's SVCB arm, which cannot be stubbed); mir2smt does not apply (loops, heap)",
  "C08": "the answer algorithm lives in HashMap<OwnedLabel, Arc<ZoneNode>> behind parking_lot locks and async update paths; hashbrown with a random hasher does not finish even two concrete inserts under CBMC; no pure kernel carries the RFC 1034 4.3.2 semantics",
- "C10": "the interpreter consumes Message/ParsedRecord values, i.e. every input goes through ParsedName::parse_ref, which CBMC cannot execute even on concrete input (DESIGN section 2); the updater side is the zone tree (C08)",
+ "C10": "the interpreter consumes Message/ParsedRecord values, i.e. every input is a sequence of whole messages with SOA framing, each record costing one ParsedName::parse_ref call for the owner plus the calls inside SOA RDATA; one call is decided in 80-360 s under per-loop bounds (DESIGN section 2a), a minimal AXFR stream (SOA, one record, SOA with two names each) is far beyond that; the updater side is the zone tree (C08)",
  "C14": "chain-of-trust validation is async + moka + ring signatures; the pure denial-range helpers were tried: nsec3_in_range is decided, but nsec_in_range (Name<Bytes>) and nsec3_label_to_hash (Vec growth + from_utf8) run out of memory, which leaves a single harness - too little to claim the property; the hostile-label panic found while trying (D10) was repaired and is demonstrated natively",
  "C16": "every clause is about async tokio tasks, sockets, pipelining and three middleware layers; the only integer kernel (EDNS size clamp) is inline in an async fn; Kani does not model concurrency",
- "C19": "differential claim between the new codec and the established one: the established parser is ParsedName::parse_ref (out of reach, DESIGN section 2); the new-API reader was tried against two independent reference readers (harness/attic/c19.rs.txt) but CBMC runs out of memory on NameBuf's 255-octet buffer even for 4 symbolic octets; a genuine disagreement between the codecs found on the way (D11, pointer into the own label run) is demonstrated natively in findings/D11",
- "C20": "every cache kernel (validity, decrement_ttl, remove_dnssec, classify_no_error) takes a Message and walks its records, i.e. goes through ParsedName::parse_ref; storage is moka and time is tokio's clock",
+ "C19": "differential claim between the new codec and the established one: the established parser ParsedName::parse_ref is decided on its own since round 4 (DESIGN section 2a); the new-API reader was tried against two independent reference readers (harness/attic/c19.rs.txt) but CBMC runs out of memory on NameBuf's 255-octet buffer even for 4 symbolic octets; a genuine disagreement between the codecs found on the way (D11, pointer into the own label run) is demonstrated natively in findings/D11",
+ "C20": "every cache kernel (validity, decrement_ttl, remove_dnssec, classify_no_error) takes a Message and walks all its records (several ParsedName::parse_ref calls per input, each 80-360 s under per-loop bounds, DESIGN section 2a, walking a question plus one record was not attempted within this session's budget); storage is moka and time is tokio's clock",
 }
 PENDING = "check not built yet (work in progress in this session; see DESIGN.md §4 for the planned harnesses)"
 
